@@ -98,7 +98,7 @@ theorem remove_wf {img : Img} (hw : WF img) (name : Bytes) (h32 : Nat) (md5 : By
     · simp only [hneg, if_false]
       rcases hsound with e | ⟨_, rlt, _⟩
       · omega
-      · obtain ⟨img', r', h1, h2, h3, _⟩ := removeByIdx_wf hw r (by omega)
+      · obtain ⟨img', r', h1, h2, h3, _⟩ := removeByIdx_wf hw r
         exact ⟨img', r', h1, h2, h3⟩
 
 /-! ### histories -/
@@ -110,11 +110,11 @@ inductive Op where
   | removeByIdx (idx : Int)
   | clear
 
-/-- caller obligations: a 16-byte digest, an index inside the table -/
-def Op.valid (cap : Nat) : Op → Prop
+/-- caller obligation: a 16-byte digest (any index may be passed to `remove_by_idx`) -/
+def Op.valid (_cap : Nat) : Op → Prop
   | .put _ _ _ md5 => md5.length = 16
   | .remove _ _ _ => True
-  | .removeByIdx idx => idx < (cap : Int)
+  | .removeByIdx _ => True
   | .clear => True
 
 def step (img : Img) : Op → Except Fault Img
@@ -139,7 +139,7 @@ theorem step_wf {img : Img} (hw : WF img) (op : Op) (hv : op.valid img.n) :
     obtain ⟨img', r, h1, h2, h3⟩ := remove_wf hw name h32 md5
     exact ⟨img', by simp [step, h1, Except.map], h2, h3⟩
   | removeByIdx idx =>
-    obtain ⟨img', r, h1, h2, h3, _⟩ := removeByIdx_wf hw idx hv
+    obtain ⟨img', r, h1, h2, h3, _⟩ := removeByIdx_wf hw idx
     exact ⟨img', by simp [step, h1, Except.map], h2, h3⟩
   | clear =>
     obtain ⟨img', h1, h2, h3⟩ := clear_wf hw
